@@ -667,6 +667,21 @@ def run_writer_check(prop, tier, seed, faults, design_ref):
             else:
                 cw_dis.append((case_size(wc), "C" + wc, o, want))
         rep.cov["client_level_cases"] = len(src)
+    if prop == "C19":
+        # the real buffered socket sinks with their statistics read while lines are buffered: reading is not one of the
+        # occasions on which the sink may write (an emit that does not fit, a flush, the drop)
+        from . import sock as sock_driver
+        scs = sock_driver.stats_sample_cases(rng, 2000 if thorough else 60)
+        try:
+            simpl = common.run_harness("sock", scs, shards=min(8, common.NCPU))
+        except common.CheckFailure as e:
+            rep.violation_noinput("correspondence run failed (statistics read mid-history)", {"error": str(e)})
+            return rep.finish()
+        for c, o in zip(scs, simpl):
+            for pid, msg in sock_driver.judge(c, o):
+                if pid == "C19":
+                    cw_fail.append(((0, len(c), 0), c, o, msg))
+        rep.cov["stats_sample_cases"] = len(scs)
     if prop == "C07":
         # the real buffered UDP sink over a socket connected to a closed port: the OS refuses every other send
         # (ECONNREFUSED); every emit and flush must return (Ok or the socket's error), nothing may hang or be duplicated
@@ -711,7 +726,7 @@ def run_writer_check(prop, tier, seed, faults, design_ref):
         cw_fail.sort()
         _, c, o, v = cw_fail[0]
         rep.violation_input("%s (%d failing cases; smallest shown)" % (v, len(cw_fail)),
-                            {"bin": "sock" if c.startswith("UR") else "mlw", "case": c, "implementation": o, "clause": v})
+                            {"bin": "mlw" if c.startswith("CW") else "sock", "case": c, "implementation": o, "clause": v})
         bad = cw_fail
     if cw_dis and not bad:
         cw_dis.sort()
